@@ -30,6 +30,27 @@ type fxModel struct {
 	inNames  []string // graph inputs the caller must supply
 	outNames []string
 	mkInputs func() gonnx.Tensors
+	// weights that are ALSO declared as graph inputs (initializer = default value): names and a
+	// constructor of overriding tensors (same shapes and types, other values)
+	defNames    []string
+	mkOverrides func() gonnx.Tensors
+}
+
+// same shape and element type, other values (float tensors only; index-like integer operands keep
+// their values so that the node stays valid)
+func perturb(t tensor.Tensor) tensor.Tensor {
+	c := t.Clone().(tensor.Tensor)
+	switch d := c.Data().(type) {
+	case []float32:
+		for i := range d {
+			d[i] = d[i]*2 + 1
+		}
+	case []float64:
+		for i := range d {
+			d[i] = d[i]*2 + 1
+		}
+	}
+	return c
 }
 
 func tensorToProto(name string, t tensor.Tensor) *onnx.TensorProto {
@@ -67,6 +88,10 @@ func tensorToProto(name string, t tensor.Tensor) *onnx.TensorProto {
 }
 
 func buildFxModel(op string, fx fixture, weightsFrom int) *fxModel {
+	return buildFxModelD(op, fx, weightsFrom, false)
+}
+
+func buildFxModelD(op string, fx fixture, weightsFrom int, defaults bool) *fxModel {
 	ins := fx.inputs()
 	m := &fxModel{op: op, fx: fx}
 	g := &onnx.GraphProto{Name: "g"}
@@ -78,7 +103,7 @@ func buildFxModel(op string, fx fixture, weightsFrom int) *fxModel {
 		}
 		return &onnx.ValueInfoProto{Name: name, Type: &onnx.TypeProto{Value: &onnx.TypeProto_TensorType{TensorType: &onnx.TypeProto_Tensor{ElemType: 1, Shape: &onnx.TensorShapeProto{Dim: dims}}}}}
 	}
-	var feedIdx []int
+	var feedIdx, defIdx []int
 	for i, t := range ins {
 		if t == nil {
 			node.Input = append(node.Input, "")
@@ -92,6 +117,11 @@ func buildFxModel(op string, fx fixture, weightsFrom int) *fxModel {
 				return nil
 			}
 			g.Initializer = append(g.Initializer, tp)
+			if defaults {
+				g.Input = append(g.Input, dyn(name, len(t.Shape())))
+				m.defNames = append(m.defNames, name)
+				defIdx = append(defIdx, i)
+			}
 		} else {
 			g.Input = append(g.Input, dyn(name, len(t.Shape())))
 			m.inNames = append(m.inNames, name)
@@ -113,6 +143,14 @@ func buildFxModel(op string, fx fixture, weightsFrom int) *fxModel {
 		return nil
 	}
 	m.bytes = b
+	m.mkOverrides = func() gonnx.Tensors {
+		all := fx.inputs()
+		t := gonnx.Tensors{}
+		for k, i := range defIdx {
+			t[m.defNames[k]] = perturb(all[i])
+		}
+		return t
+	}
 	m.mkInputs = func() gonnx.Tensors {
 		all := fx.inputs()
 		t := gonnx.Tensors{}
@@ -145,6 +183,9 @@ func runRec(m *gonnx.Model, in gonnx.Tensors) (out gonnx.Tensors, err error, pan
 	out, err = m.Run(in)
 	return
 }
+
+// the operator-level generators whose cases are re-used for effect snapshots
+var effectGenerators = []func(dir, tier string, seed int64){genC03, genC04, genC05, genC07, genC08, genC09, genC10, genC11}
 
 func genC02(dir, tier string, seed int64) {
 	r := rand.New(rand.NewSource(seed))
@@ -180,8 +221,17 @@ func genC02(dir, tier string, seed int64) {
 	cw.close()
 	meta.GoOnly = append(meta.GoOnly, noFx)
 
+	// ---- stream 1b: the same effect snapshot on every case the operator-level generators produce ----
+	dryCases = true
+	effectsAll.N, effectsAll.Violations = 0, []string{}
+	for _, g := range effectGenerators {
+		g(dir, "quick", seed)
+	}
+	dryCases = false
+	meta.GoOnly = append(meta.GoOnly, effectsAll)
+
 	// ---- stream 2: histories of Runs on one Model vs a fresh Model ----
-	hist := goOnlyResult{Stream: "C02_histories", Rule: "single-node models from every fixture (trailing inputs as initializers: weights, biases, initial states, axes, shapes) + the loadable sample models: histories of 2..6 Runs on ONE Model (same input objects re-used, fresh copies, interleaved failing calls: missing input, wrong rank); every Run compared bit for bit with the same call on a freshly loaded Model; caller tensors and Model parameters (through the verif hook) snapshotted before/after every Run", Violations: []string{}}
+	hist := goOnlyResult{Stream: "C02_histories", Rule: "single-node models from every fixture (trailing inputs as initializers: weights, biases, initial states, axes, shapes; each also in the variant where those initializers are declared graph inputs, i.e. defaults that some calls of the history override with other values and other calls leave out) + the loadable sample models: histories of 2..6 Runs on ONE Model (same input objects re-used, fresh copies, interleaved failing calls: missing input, wrong rank); every Run compared bit for bit with the same call on a freshly loaded Model; caller tensors and Model parameters (through the verif hook) snapshotted before/after every Run", Violations: []string{}}
 	nHist := 2
 	if tier == "thorough" {
 		nHist = 40
@@ -196,6 +246,11 @@ func genC02(dir, tier string, seed int64) {
 				}
 				if m := buildFxModel(n, f, w); m != nil {
 					models = append(models, m)
+				}
+				if w < nin {
+					if m := buildFxModelD(n, f, w, true); m != nil {
+						models = append(models, m)
+					}
 				}
 			}
 			if nin == 0 {
@@ -252,6 +307,17 @@ func genC02(dir, tier string, seed int64) {
 							nm := fm.inNames[r.Intn(len(fm.inNames))]
 							in[nm] = tensor.New(tensor.WithShape(1, 1, 1, 1, 1, 1), tensor.WithBacking([]float32{1}))
 						}
+					}
+					// a weight that is also a graph input: overridden in some calls, defaulted in the others
+					if len(fm.defNames) > 0 && r.Intn(2) == 0 {
+						cp := gonnx.Tensors{}
+						for k, t := range in {
+							cp[k] = t
+						}
+						for k, t := range fm.mkOverrides() {
+							cp[k] = t
+						}
+						in = cp
 					}
 					before := map[string]string{}
 					for k, t := range in {
